@@ -265,7 +265,8 @@ SchedInject(st0, s) ==
     [] s.k = "tsched" ->          \* Scheduler::schedule(task, delay): a = 1 one-shot, 2 repeating (period b), 3 subscribing; b = delay (-1: none)
          LET kind == IF s.a = 1 THEN "uonce" ELSE IF s.a = 2 THEN "urep" ELSE "usub"
              tk0 == Task(kind, 0, IF s.a = 2 THEN -1 ELSE s.b, 0)
-             tk == IF s.a = 2 THEN [tk0 EXCEPT !.p = s.b, !.fur = st0.now + s.b] ELSE tk0
+             (* a repeating task: period b; v = I(first): RepeatTask::with_first_tick(first, period), otherwise the first tick is one period away *)
+             tk == IF s.a = 2 THEN [tk0 EXCEPT !.p = s.b, !.fur = st0.now + (IF s.v[1] = "i" THEN W(s.v) ELSE s.b)] ELSE tk0
              st1 == Spawn(st0, tk)
              st2 == AddSub(st1, SubRec(IF s.a = 3 THEN "tasksub" ELSE "task", Len(st1.nodes), 0)) IN
          [st2 EXCEPT !.handles = Append(@, Len(st2.subs)), !.hcre = Append(@, <<st0.cur, st0.callno>>),
